@@ -44,7 +44,7 @@ ASSUMPTIONS = [
     "'exactly as after an uninterrupted run' is read as: same notes per page on every field, up to the names of ZIDs allocated during the run",
 ]
 REQUIRED_COUNTERS = ["crash.injected", "crash.exit86", "rerun.ok", "effects.total"]
-MIN_JUDGED = {"quick": 30, "thorough": 600}
+MIN_JUDGED = {"quick": 30, "thorough": 400}
 WATCHDOG = {"quick": 1500, "thorough": 14000}
 FINDING_TORN = "C13-in-place-writes-are-not-atomic"
 FINDING_STAMP = "C13-stamp-lost-when-killed-during-page-removal"
